@@ -251,6 +251,26 @@ def r19_5_7(ctx: Ctx):
     ctx.rule('R19.7', 'RefillQueue clears, then inserts every item with its current key(s)')
     gq, lq = queue_fields(ctx)
     sd, dual = ctx.ix.cls('SearchData'), ctx.ix.cls('SearchDataDualQueue')
+    # the source of a refill is the whole container: a generator helper that yields under a condition is a filtered
+    # view of it (decided on the syntax tree first; generators are outside the path explorer)
+    for cls in (sd, dual):
+        m = cls.lookup('RefillQueue')
+        if m is None:
+            continue
+        for nd in ast.walk(m.node):
+            if isinstance(nd, ast.For) and isinstance(nd.iter, ast.Call):
+                for g in ctx.pta.internal_callees(m, nd.iter):
+                    if not any(isinstance(y, (ast.Yield, ast.YieldFrom)) for y in ast.walk(g.node)):
+                        continue
+                    for cond in ast.walk(g.node):
+                        if isinstance(cond, ast.If) and \
+                                any(isinstance(y, (ast.Yield, ast.YieldFrom, ast.Continue, ast.Break, ast.Return))
+                                    for b in cond.body + cond.orelse for y in ast.walk(b)):
+                            ctx.fail('R19.7', m.short, g.loc(cond),
+                                     f'{m.short} refills the queue from {g.short}, which yields an item only when '
+                                     f'`{ast.unparse(cond.test)[:50]}`: items for which the condition fails are never '
+                                     f'queued again after a refill, although their characteristic may be the maximal one',
+                                     key=f'R19.7::{m.short}::filtered-source::{g.name}')
     q = ctx.ix.cls('CharacteristicsQueue')
     want_key = {gq: 'globalR', lq: 'localR'}
     n = 0
